@@ -156,7 +156,9 @@ def run(tier, seed):
     try:
         for h in range(nhist):
             sw, sown, ops, B = gen_history(c.rng, tier)
-            run_ = D.CropRun(tmp, sw.kind)
+            style = c.rng.choice(["named"] * 6 + ["inferred-name", "fn-assigned"])
+            run_ = D.CropRun(tmp, sw.kind, style=style)
+            c.count("crop_construction", style)
             obs = [run_.do(op) for op in ops]
             desc = [D.describe_op(x) for x in ops]
             c.case(json.dumps(desc, sort_keys=True, default=str), nontrivial=B >= 2,
